@@ -1,6 +1,7 @@
 package rules
 
 import (
+	"go/constant"
 	"fmt"
 	"go/token"
 	"strings"
@@ -24,6 +25,214 @@ func c16(c *Ctx) {
 	c16cache(c)
 	c16window(c)
 	c16queue(c)
+	c16queueEmpty(c)
+	c16set(c)
+}
+
+// countPred evaluates a boolean sym that only compares the load of field `field` with integer constants,
+// for field = n. ok=false when the sym has another shape.
+func countPred(s *px.Sym, field string, n int64) (val, ok bool) {
+	s = s.Strip(true)
+	if s == nil {
+		return false, false
+	}
+	switch s.Kind {
+	case px.KUnOp:
+		if s.Op == token.NOT {
+			v, ok := countPred(s.X, field, n)
+			return !v, ok
+		}
+	case px.KBinOp:
+		num := func(x *px.Sym) (int64, bool) {
+			x = x.Strip(true)
+			if x == nil {
+				return 0, false
+			}
+			if px.IsFieldLoad(x, field, nil) {
+				return n, true
+			}
+			if x.Kind == px.KConst {
+				if k, ok := x.V.(*ssa.Const); ok && k.Value != nil && k.Value.Kind() == constant.Int {
+					return k.Int64(), true
+				}
+			}
+			return 0, false
+		}
+		a, ok1 := num(s.X)
+		b, ok2 := num(s.Y)
+		if !ok1 || !ok2 {
+			return false, false
+		}
+		switch s.Op {
+		case token.EQL:
+			return a == b, true
+		case token.NEQ:
+			return a != b, true
+		case token.LSS:
+			return a < b, true
+		case token.LEQ:
+			return a <= b, true
+		case token.GTR:
+			return a > b, true
+		case token.GEQ:
+			return a >= b, true
+		}
+	}
+	return false, false
+}
+
+// c16queueEmpty (R6): Empty() is decided by the element count (head == tail is also true for a full ring) and
+// the queue grows by a positive step (a queue created with size 0 must still accept elements).
+func c16queueEmpty(c *Ctx) {
+	rule := "C16.R6"
+	if f := c.fn(rule, colPkg, "(*Queue).Empty"); f != nil {
+		ps := c.paths(rule, f, px.Config{})
+		c.forall(rule, colPkg+".(*Queue).Empty", "Empty() ⇔ count == 0, read under the lock (head == tail also holds for a full ring buffer)", f, ps, func(p *px.Path) (bool, string) {
+			if p.Exit != px.ExitReturn || len(p.Results) != 1 {
+				return true, ""
+			}
+			for n := int64(0); n <= 2; n++ {
+				v, ok := countPred(p.Results[0], "count", n)
+				if !ok {
+					return false, "the result is not a test of q.count: " + p.Results[0].Describe()
+				}
+				if v != (n == 0) {
+					return false, fmt.Sprintf("with %d elements Empty() is %v", n, v)
+				}
+			}
+			return true, ""
+		})
+		lockGuardFn(c, rule, colPkg+".(*Queue).Empty#lock", f, "lock", []string{"count", "head", "tail", "elements"}, false, false, nil, false)
+	}
+	// the ring is created with at least one cell and grows by a positive step: Put indexes elements[tail] and
+	// reduces modulo len(elements) unconditionally
+	if f := c.fn(rule, colPkg, "NewQueue"); f != nil && len(f.Params) == 1 {
+		positive := func(v ssa.Value) bool {
+			switch x := v.(type) {
+			case *ssa.Const:
+				return x.Value != nil && x.Value.Kind() == constant.Int && x.Int64() > 0
+			case *ssa.Phi:
+				// size, or a positive constant on the branch that found it too small
+				hasConst, rest := false, true
+				for _, e := range x.Edges {
+					if k, ok := e.(*ssa.Const); ok && k.Value != nil && k.Int64() > 0 {
+						hasConst = true
+					} else if e != f.Params[0] {
+						rest = false
+					}
+				}
+				return hasConst && rest
+			case *ssa.Call:
+				if b, ok := x.Call.Value.(*ssa.Builtin); ok && b.Name() == "max" {
+					for _, a := range x.Call.Args {
+						if k, ok := a.(*ssa.Const); ok && k.Value != nil && k.Int64() > 0 {
+							return true
+						}
+					}
+				}
+				if sc := x.Call.StaticCallee(); sc != nil && (sc.Name() == "MaxInt" || sc.Name() == "AtLeast") {
+					for _, a := range x.Call.Args {
+						if k, ok := a.(*ssa.Const); ok && k.Value != nil && k.Int64() > 0 {
+							return true
+						}
+					}
+				}
+			}
+			return false
+		}
+		var bad []string
+		n := 0
+		for _, b := range f.Blocks {
+			for _, ins := range b.Instrs {
+				switch x := ins.(type) {
+				case *ssa.MakeSlice:
+					n++
+					if !positive(x.Len) {
+						bad = append(bad, c.P.Pos(x.Pos())+": the ring is made with the caller's size as it is (0 or negative gives an empty ring: Put then indexes elements[0] of an empty slice)")
+					}
+				case *ssa.Store:
+					if fa, ok := x.Addr.(*ssa.FieldAddr); ok && fieldNameOf(fa) == "size" {
+						n++
+						if !positive(x.Val) {
+							bad = append(bad, c.P.Pos(x.Pos())+": the growth step q.size is the caller's size as it is (0 means the ring never grows)")
+						}
+					}
+				}
+			}
+		}
+		if n < 2 {
+			c.R.Undecided(rule, colPkg+".NewQueue#size", "the ring allocation and the growth step are recognised", fmt.Sprint(n))
+		} else {
+			c.R.Check(len(bad) == 0, rule, colPkg+".NewQueue#size", "the ring has at least one cell and a positive growth step for every size argument (Queue behaves as a FIFO for every size parameter)", posOf(c, f), fmt.Sprint(bad), nil, n)
+		}
+	}
+}
+
+// c16set (R7): Set is a mathematical set over whatever was added: add stores the element on every path, Remove
+// deletes it on every path, Contains answers the map lookup (false without a lookup only for the empty set). The
+// type bookkeeping (validate) only logs; it must not make Contains disagree with add/Keys/Count.
+func c16set(c *Ctx) {
+	rule := "C16.R7"
+	isData := func(s *px.Sym) bool { return px.IsFieldLoad(s, "data", nil) }
+	if f := c.fn(rule, colPkg, "(*Set).add"); f != nil {
+		ps := c.paths(rule, f, px.Config{})
+		c.forall(rule, colPkg+".(*Set).add", "every path stores data[i] (the type bookkeeping never rejects an element)", f, ps, func(p *px.Path) (bool, string) {
+			if p.Exit != px.ExitReturn {
+				return true, ""
+			}
+			for _, e := range p.All(px.KindIs(px.EvMapUpdate)) {
+				if isData(e.Addr) && isParam(e.Key, f.Params[1]) {
+					return true, ""
+				}
+			}
+			return false, "an element is dropped without being stored"
+		})
+	}
+	if f := c.fn(rule, colPkg, "(*Set).Remove"); f != nil {
+		ps := c.paths(rule, f, px.Config{})
+		c.forall(rule, colPkg+".(*Set).Remove", "every path deletes data[i]", f, ps, func(p *px.Path) (bool, string) {
+			if p.Exit != px.ExitReturn {
+				return true, ""
+			}
+			for _, e := range p.All(px.KindIs(px.EvCall)) {
+				if e.Call.Builtin == "delete" && isData(e.Call.Args[0]) && isParam(e.Call.Args[1], f.Params[1]) {
+					return true, ""
+				}
+			}
+			return false, "Remove returns without deleting the element"
+		})
+	}
+	if f := c.fn(rule, colPkg, "(*Set).Contains"); f != nil {
+		ps := c.paths(rule, f, px.Config{})
+		c.forall(rule, colPkg+".(*Set).Contains", "the answer is the lookup data[i]; false without a lookup only when the set is empty", f, ps, func(p *px.Path) (bool, string) {
+			if p.Exit != px.ExitReturn || len(p.Results) != 1 {
+				return true, ""
+			}
+			for _, lk := range p.All(px.KindIs(px.EvLookup)) {
+				if isData(lk.Addr) && isParam(lk.Key, f.Params[1]) && p.Results[0].Strip(false) == findExtract(p, lk.Res, 1) {
+					return true, ""
+				}
+			}
+			if p.Abs(p.Results[0]).K == px.False {
+				// the emptiness test must be the branch that decided this return
+				var last *px.Event
+				for _, b := range p.All(px.KindIs(px.EvBranch)) {
+					if !b.Forced {
+						last = b
+					}
+				}
+				if last != nil {
+					cnd := last.Cond.Strip(true)
+					if cnd.Kind == px.KBinOp && (isLenOf(cnd.X, isData) || isLenOf(cnd.Y, isData)) {
+						return true, ""
+					}
+				}
+				return false, "false is answered without looking the element up in a non-empty set: an element that add() stored (and Keys/Count report) is denied"
+			}
+			return false, "the answer is not the result of the lookup data[i]"
+		})
+	}
+	c.R.Min(rule, 3, "Set.add, Set.Remove, Set.Contains")
 }
 
 func c16safemap(c *Ctx) {
@@ -366,8 +575,11 @@ func c16lru(c *Ctx) {
 	c.R.Min(rule, 5, "add, removeElement, removeOldest, remove, onEvict")
 }
 
-func c16cache(c *Ctx) {
-	rule := "C16.R3"
+func c16cache(c *Ctx) { c16cacheAs(c, "C16.R3", false) }
+
+// c16cacheAs: the in-memory cache's API rules; with timersOnly only the two methods that drive the timing
+// wheel (SetWithExpire, Del) are checked — that part also runs under C12, whose timers the cache sets and moves.
+func c16cacheAs(c *Ctx, rule string, timersOnly bool) {
 	lruCall := func(name string) px.Pred {
 		return func(e *px.Event) bool {
 			return e.Kind == px.EvCall && e.Call.Method != nil && e.Call.Method.Name() == name && px.IsFieldLoad(e.Call.Recv, "lruCache", nil)
@@ -428,6 +640,10 @@ func c16cache(c *Ctx) {
 			}
 			return true, ""
 		})
+	}
+	if timersOnly {
+		c.R.Min(rule, 2, "Cache.SetWithExpire, Cache.Del")
+		return
 	}
 	if f := c.fn(rule, colPkg, "(*Cache).doGet"); f != nil {
 		ps := c.paths(rule, f, px.Config{})
